@@ -5,6 +5,8 @@ import (
 	"os"
 	"strconv"
 	"strings"
+
+	"github.com/tableauio/tableau/options"
 )
 
 // ---------------------------------------------------------------------------
@@ -67,6 +69,23 @@ func implC12Refer(a []string) string {
 	}
 	w := newWorkspace()
 	defer w.cleanup()
+	// where the header rows stand: default | moved down one line for every sheet by the global header options |
+	// moved down for the referred workbook only by its book-level ('#') metasheet row. The refer check reads the
+	// referred sheet a second time and must find the same rows.
+	variant := (k + j + len(values) + len(primIDs)) % 3
+	ro := runOpts{Lang: a[5]}
+	shift := func(rows [][]string) [][]string { return append([][]string{{"# banner"}}, rows...) }
+	itemShift, allShift := variant == 2, variant == 1
+	if allShift {
+		ro.Header = &options.HeaderOption{NameRow: 2, TypeRow: 3, NoteRow: 4, DataRow: 5}
+	}
+	mk0 := mk
+	mk = func(order []int, ids []string) [][]string {
+		if itemShift || allShift {
+			return shift(mk0(order, ids))
+		}
+		return mk0(order, ids)
+	}
 	item := sheetSpec{Name: "ItemConf", Rows: mk(ident, primIDs)}
 	if a[4] != "-" {
 		item.Meta = map[string]string{"Merger": "Item*.csv"}
@@ -76,13 +95,19 @@ func implC12Refer(a []string) string {
 		}
 		w.writeCSVBook("", bookSpec{Name: "ItemB", Sheets: []sheetSpec{{Name: "ItemConf", Rows: mk(order, mergedIDs)}}, NoMeta: true})
 	}
-	w.writeCSVBook("", bookSpec{Name: "Item", Sheets: []sheetSpec{item}})
+	itemBook := bookSpec{Name: "Item", Sheets: []sheetSpec{item}}
+	if itemShift {
+		itemBook.BookMeta = map[string]string{"Namerow": "2", "Typerow": "3", "Noterow": "4", "Datarow": "5"}
+	}
+	w.writeCSVBook("", itemBook)
 	award := [][]string{{"ID", "ItemID"}, {"map<uint32, Award>", `uint32|{refer:"ItemConf.ID"}`}, {"n", "n"}}
 	for i, v := range values {
 		award = append(award, []string{strconv.Itoa(i + 1), v})
 	}
+	if allShift {
+		award = shift(award)
+	}
 	w.writeCSVBook("", bookSpec{Name: "Award", Sheets: []sheetSpec{{Name: "AwardConf", Rows: award}}})
-	ro := runOpts{Lang: a[5]}
 	if err := w.genProto(ro); err != nil {
 		return "protoerr " + errCode(err)
 	}
